@@ -95,6 +95,27 @@ def run():
         return err
     if len(re.findall(r"drop\(conn\)", bt)) != 1 or re.search(r"conn\.clone\(\)", bt):
         return "ws::background_task: expected exactly one drop(conn) and no clone of the ConnectionState"
+    # ---- ws.rs: graceful_shutdown waits for pending calls only for the causes its guard admits
+    gs = translate._fn_body(ws, r"async fn graceful_shutdown<S>\(")
+    if gs is None:
+        return "ws.rs: graceful_shutdown not found"
+    err = _in_order(gs, [
+        ("guard", r"if (let Ok\(Shutdown::Stopped\) = result|result\.is_ok\(\)) \{"),
+        ("wait for pending calls", r"let graceful_shutdown = pending_calls\.for_each\("),
+        ("disconnect arm", r"let disconnect = ws_stream\.try_for_each\("),
+        ("select", r"tokio::select! \{"),
+        ("send-task-gone arm", r"_ = conn_tx\.closed\(\) => \{\}"),
+        ("stop the send task", r"_ = conn_tx\.send\(\(\)\);"),
+        ("join the send task", r"_ = send_task_handle\.await;"),
+    ], "ws::graceful_shutdown")
+    if err:
+        return err
+    if re.search(r"if let Ok\(Shutdown::Stopped\) = result \{", gs):
+        waits = "stopped"
+    else:
+        waits = "is_ok"
+    if len(re.findall(r"\bif\b", gs.split("tokio::select!")[0])) != 1:
+        return "ws::graceful_shutdown: more than one condition before the select (guard not readable)"
     # call_with_service: non-POST is answered without touching the RPC service
     cws = translate._fn_body(http, r"pub async fn call_with_service<S, B>\(")
     if cws is None or not re.search(r"Method::POST if content_type_is_json\(&request\) => \{", cws) \
@@ -111,6 +132,9 @@ def run():
            "(* http::response::from_method_response *)",
            "Definition gen_status_ok : N := %d." % st["from_method_response"],
            "(* HttpResponse::new(..) in the `receive_request` Err arm: http::Response::new = 200 OK *)",
-           "Definition gen_status_handshake_failed : N := 200.", ""]
+           "Definition gen_status_handshake_failed : N := 200.", "",
+           "(* ws::graceful_shutdown: the condition under which it waits for the session's pending calls, as a function of",
+           "   (the loop was left because the server is stopping, the loop result is Ok) *)",
+           "Definition gen_waits_for_pending (stopped is_ok : bool) : bool := %s." % waits, ""]
     vlib.write_if_changed(os.path.join(translate.GEN, "ConnGuardGen.v"), "\n".join(out))
     return None
